@@ -433,9 +433,9 @@ func (st *StateDB) GetWithdrawQueue() *WithdrawQueue {
 
 func (st *StateDB) RemoveWithdrawRecords(index []int) bool {
 	queue, _ := st.getWithdrawQueue()
-	removedRecords := queue.RemoveRecords(index)
-	for _, record := range removedRecords {
-		st.validatorJournal.append(&validatorDelWithdrawChange{address: &record.Validator, prev: record})
+	prev := append([]*WithdrawRecord(nil), queue.Records...)
+	if removedRecords := queue.RemoveRecords(index); len(removedRecords) > 0 {
+		st.validatorJournal.append(&validatorDelWithdrawChange{prev: prev})
 	}
 	return true
 }
